@@ -606,11 +606,10 @@ class Circuit(Function):
         check_block_doesnt_exist(name, self)
         check_gates_exist(this_connectors, self)
         check_gates_exist(other_connectors, other)
+        if len(other_connectors) != len(set(other_connectors)):
+            raise CreateBlockError()
         if right_connect:
             if len(this_connectors) != len(set(this_connectors)):
-                raise CreateBlockError()
-        else:
-            if len(other_connectors) != len(set(other_connectors)):
                 raise CreateBlockError()
 
         if len(this_connectors) != len(other_connectors):
